@@ -698,6 +698,20 @@ func scenC12(run *vlab.Run, sx, tmp string) {
 				}
 				if fire {
 					cr.Signal(syscall.SIGINT)
+					if c.Answer {
+						// replies keep flowing while the process winds down (sockets are being closed under the receiver)
+						if fr, _ := replyFor(c.Kind, oracle.LinkEthernet, dec, a, port, prng); fr != nil {
+							go func() {
+								for k := 0; k < 300; k++ {
+									time.Sleep(time.Millisecond)
+									func() {
+										defer func() { recover() }()
+										cr.Inject(d, fr)
+									}()
+								}
+							}()
+						}
+					}
 				}
 				if late {
 					time.AfterFunc(100*time.Millisecond, func() { cr.Signal(syscall.SIGINT) })
